@@ -15,7 +15,7 @@ mod verif_kani_time_delta {
         let lex_eq = a.secs == b.secs && a.nanos == b.nanos;
         assert!((a < b) == lex_lt, "derived < is lexicographic on (secs, nanos)");
         assert!((a == b) == lex_eq, "derived == compares both fields");
-        assert!((a.cmp(&b) == core::cmp::Ordering::Less) == lex_lt && (a.cmp(&b) == core::cmp::Ordering::Equal) == lex_eq);
-        assert!(a.partial_cmp(&b) == Some(a.cmp(&b)));
+        assert!((a.cmp(&b) == core::cmp::Ordering::Less) == lex_lt && (a.cmp(&b) == core::cmp::Ordering::Equal) == lex_eq, "(a.cmp(&b) == core::cmp::Ordering::Less) == lex_lt && (a.cmp(&b) == co");
+        assert!(a.partial_cmp(&b) == Some(a.cmp(&b)), "a.partial_cmp(&b) == Some(a.cmp(&b))");
     }
 }
